@@ -94,7 +94,7 @@ class Device(object):
 
     def send_cnxn(self, delay=0.0, maxdata=None):
         self.online = True
-        self.enqueue(self.conn_q, Packet(b'CNXN', 0x01000000, self.maxdata if maxdata is None else maxdata,
+        self.enqueue(self.conn_q, Packet(b'CNXN', self.cfg.get('version', 0x01000000), self.maxdata if maxdata is None else maxdata,
                                          self.cfg.get('banner', b'device::ro.product.name=sim;\0')), delay)
         for pkt in self.stale:          # whole packets of the previous session that the link delivers late (unflushed USB pipe, slow device)
             self.enqueue(self.conn_q, pkt, delay)
